@@ -30,6 +30,7 @@ class CompMixin:
                     it = self.reify(it)
                 except EngineError:
                     pass
+            it = self.unbox(it, s)
             if isinstance(it.t, TOpt):
                 raise EngineError("comprehension over an Optional iterable")
             if isinstance(it.extra, tuple) and it.extra and it.extra[0] == "dictitems":
